@@ -35,7 +35,8 @@ def build(d):
     if nodes is None:
         return {"discard": state}
     flags, date = projgen.gen_bump(d, nodes, state)
-    return {"ast": nodes, "state": state, "old": text, "flags": flags, "date": date, "shared_line": d.chance(1, 3)}
+    # "bare": the {pep440_version} pattern has no literal after the placeholder and the text ends its line
+    return {"ast": nodes, "state": state, "old": text, "flags": flags, "date": date, "shared_line": d.chance(1, 3), "bare": d.chance(1, 3)}
 
 
 def readme_rules(T):
@@ -85,10 +86,14 @@ def check(case):
             return viol(bad[0] + ":set-up-text", bad[1], dict(detail, **bad[2]), nt=nt)
     tmp = tempfile.mkdtemp(prefix="c15_")
     try:
+        bare = case.get("bare")
         spec = {"current_version": old, "version_pattern": pattern,
-                "files": [["f.txt", ['ver="{version}"', "pep='{pep440_version}'"]]]}
+                "files": [["f.txt", ['ver="{version}"', "pep == {pep440_version}" if bare else "pep='{pep440_version}'"]]]}
         projgen.write_file(tmp, "bumpver.toml", projgen.toml_config(spec))
-        body = ('x ver="%s" and pep=\'%s\' y\n' if case["shared_line"] else 'x ver="%s"\nand pep=\'%s\' y\n') % (old, old_pep)
+        if bare:
+            body = ('x ver="%s" and pep == %s\n' if case["shared_line"] else 'x ver="%s"\nand pep == %s\n') % (old, old_pep)
+        else:
+            body = ('x ver="%s" and pep=\'%s\' y\n' if case["shared_line"] else 'x ver="%s"\nand pep=\'%s\' y\n') % (old, old_pep)
         projgen.write_file(tmp, "f.txt", body)
         args = ["update", "--no-fetch"] + bv.flag_args(flags)
         r = bv.run(args, cwd=tmp, today=date)
@@ -101,7 +106,7 @@ def check(case):
         with open(os.path.join(tmp, "f.txt"), encoding="utf-8") as f:
             text = f.read()
         mv = re.search(r'ver="([^"]*)"', text)
-        mp = re.search(r"pep='([^']*)'", text)
+        mp = re.search(r"pep == ([^\n]*)", text) if bare else re.search(r"pep='([^']*)'", text)
         if not mv or not mp or mv.group(1) != N:
             return viol("file-does-not-hold-announced-version", {}, dict(detail, announced=N, file=text), nt=nt)
         T = mp.group(1)
@@ -129,6 +134,17 @@ def check(case):
         if r2.exit != 0 and "No match for pattern" in r2.err:
             return viol("derived-pattern-rejects-text-bumpver-renders", {}, dict(detail, second=r2.summary(800)), nt=nt)
         classes.append("second-update-ok" if r2.exit == 0 else "second-update-declined")
+        if r2.exit == 0:
+            # ... and must have replaced ALL of it: judge the text of the second update as well
+            with open(os.path.join(tmp, "f.txt"), encoding="utf-8") as f:
+                text2 = f.read()
+            mp2 = re.search(r"pep == ([^\n]*)", text2) if bare else re.search(r"pep='([^']*)'", text2)
+            N2 = r2.new_version
+            bad = judge(N2, mp2.group(1) if mp2 else "", pattern)
+            if bad:
+                return viol(bad[0] + ":after-second-update", bad[1], dict(detail, second_version=N2, **bad[2]), nt=nt)
+        if bare:
+            classes.append("bare-pep440-pattern")
         return ok(nt=nt, classes=tuple(classes))
     finally:
         shutil.rmtree(tmp, ignore_errors=True)
